@@ -187,6 +187,21 @@ Theorem C03_circuitgen_correct_gmw : forall thr p inp,
 Proof. exact circuitgen_correct_gmw. Qed.
 Print Assumptions C03_circuitgen_correct_gmw.
 
+(* The hypotheses are honest about the ORDER of the gates: eval_circuit evaluates
+   the list gate by gate in emission order, which is meaningful because for
+   every program meeting cg_wf_tg (either target, every threshold) the
+   generated list is single assignment (wfc_b) and defined before use (dbu) —
+   proved, not assumed.  (Real lists that are not defined-before-use exist —
+   GMW target, a division with a result narrower than its operands: the
+   Goldschmidt divider leaves the result wires undriven — and there cg_wf_tg is
+   false on both sides of the correspondence.) *)
+Theorem C03_circuitgen_structure : forall tg thr p, cg_wf_tg tg p = true ->
+  let c := circuit_of_ssa_gen multiplierArrayTresholds thr tg p in
+  Mpc.Builders.Emit.wfc_b (N.of_nat (cc_ninp c)) (cc_gates c) = true /\
+  Mpc.Builders.StructProof.dbu (N.of_nat (cc_ninp c)) (cc_gates c).
+Proof. exact circuitgen_structure. Qed.
+Print Assumptions C03_circuitgen_structure.
+
 (* The same for every value of Params.CircMultArrayTreshold (the Karatsuba /
    array switch of NewMultiplier), with the threshold table regenerated from
    circ_multiplier_params.go. *)
